@@ -265,3 +265,59 @@ func VH_C14_GRID(c, f, n int) {
 	vRenderErr(q, err)
 	vCover("rejected")
 }
+
+// Operator/operand-kind grid: every binary operator applied to every pair of operand forms whose
+// kinds it does not support must be refused, whatever the syntactic form of the operands
+// (literal, field, call, parenthesised expression, negation).
+var vC14Forms = []struct {
+	text string
+	kind byte
+}{
+	{"'a'", 't'}, {"key", 't'}, {"upper(key)", 't'}, {"(key + 'x')", 't'},
+	{"1", 'n'}, {"strlen(key)", 'n'}, {"(int(value) + 1)", 'n'}, {"1.5", 'n'},
+	{"true", 'b'}, {"is_int(value)", 'b'}, {"(value = '1')", 'b'}, {"!(key = 'a')", 'b'},
+	{"split(value, ',')", 'l'}, {"list(1, 2)", 'l'},
+}
+
+var vC14BinOps = []string{"+", "-", "*", "/", "=", "!=", ">", "<=", "^="}
+
+func vC14Supported(op string, l, r byte) bool {
+	switch op {
+	case "+":
+		return l == r && (l == 't' || l == 'n')
+	case "-", "*", "/":
+		return l == 'n' && r == 'n'
+	case "=", "!=":
+		return l == r // list = list is not judged (the documentation is silent): skipped
+	case ">", "<=":
+		return l == r && (l == 't' || l == 'n')
+	}
+	return l == 't' && r == 't' // ^=
+}
+
+func VN_C14_FORMS(tier int) int { return len(vC14Forms) }
+func VN_C14_OPS(tier int) int   { return len(vC14BinOps) }
+
+// VH_C14_KINDS(l, r, op, ctx): ctx 0 select field, 1 function argument in WHERE, 2 WHERE operand / WHERE itself.
+func VH_C14_KINDS(l, r, op, ctx int) {
+	L, R, o := vC14Forms[l], vC14Forms[r], vC14BinOps[op]
+	if vC14Supported(o, L.kind, R.kind) {
+		return
+	}
+	e := "(" + L.text + " " + o + " " + R.text + ")"
+	var q string
+	switch ctx {
+	case 0:
+		q = "select key, " + e + " where key ^= 'a'"
+	case 1:
+		q = "select * where is_int(" + e + ") | key = 'a'"
+	default:
+		q = "select * where " + e + " = " + e
+	}
+	st := vSymStore(1, 1, 1, 1, 1, "ab", "12")
+	_, err := NewOptimizer(q).BuildPlan(st)
+	vAssert(err != nil, "C14/statically-wrong-statement-accepted")
+	vAssert(len(st.log) == 0, "C14/storage-accessed-before-rejection")
+	vRenderErr(q, err)
+	vCover("rejected")
+}
